@@ -1405,10 +1405,10 @@ class FlipEnumParallel(ADEVPrimitive):
         (p_primal,) = Dual.tree_primal(dual_tree)
         (p_tangent,) = Dual.tree_tangent(dual_tree)
         support = jnp.array([True, False])
-        ret_primals, ret_tangents = modular_vmap(kdual)(
-            (support,),
-            (_discrete_zero_tangent(support)),
+        ret_dual = modular_vmap(lambda b: kdual(Dual(b, _discrete_zero_tangent(b))))(
+            support
         )
+        (ret_primals,), (ret_tangents,) = Dual.tree_unzip(ret_dual)
 
         def _inner(p, ret):
             return jnp.sum(jnp.array([p, 1 - p]) * ret)
@@ -1447,9 +1447,10 @@ class CategoricalEnumParallel(ADEVPrimitive):
         (probs_primal,) = Dual.tree_primal(dual_tree)
         (probs_tangent,) = Dual.tree_tangent(dual_tree)
         idxs = jnp.arange(len(probs_primal))
-        ret_primals, ret_tangents = modular_vmap(kdual)(
-            (idxs,), (_discrete_zero_tangent(idxs),)
+        ret_dual = modular_vmap(lambda i: kdual(Dual(i, _discrete_zero_tangent(i))))(
+            idxs
         )
+        (ret_primals,), (ret_tangents,) = Dual.tree_unzip(ret_dual)
 
         def _inner(probs, primals):
             return jnp.sum(jax.nn.softmax(probs) * primals)
